@@ -30,7 +30,10 @@ Inductive position := PosPrefix | PosSuffix.
 (* index operands of (indirect) indexed register operands: registers and numeric expressions only *)
 Inductive idxcfg :=
 | IdxReg (r : str) (code : option (Z * Z))                         (* (value, size) *)
-| IdxNum (code : option (Z * Z)) (a : argcfg).
+| IdxNum (code : option (Z * Z)) (a : argcfg)
+| IdxNumBc (size mn mx : Z).                                       (* numeric_bytecode: the index value is the code *)
+
+Inductive idxcode := ICNone | ICConst (c : Z * Z) | ICExpr (e : expr) (mx mn size : Z).
 
 Inductive okind :=
 | KRegister (r : str) (d : option (dec * bool))                    (* decorator, is_prefix *)
@@ -170,7 +173,7 @@ Definition numeric_arg (regs : list str) (o : opcfg) (a : argcfg) (valid : optio
   end.
 
 (* index operand of an (indirect) indexed register operand *)
-Definition idx_priority (i : idxcfg) : Z := match i with IdxReg _ _ => 8 | IdxNum _ _ => 9 end.
+Definition idx_priority (i : idxcfg) : Z := match i with IdxReg _ _ => 8 | IdxNum _ _ => 9 | IdxNumBc _ _ _ => 12 end.
 
 Fixpoint insert_idx (x : idxcfg) (l : list idxcfg) : list idxcfg :=
   match l with
@@ -185,22 +188,29 @@ Definition idx_pattern_matches (i : idxcfg) (ts : list token) : bool :=
   match i with
   | IdxReg r _ => match ts with [TLabel x] => str_eqb_ci x r | _ => false end
   | IdxNum _ _ => negb (Nat.eqb (length ts) 0)
+  | IdxNumBc _ _ _ => Nat.eqb (length ts) 1        (* its pattern is that of a single expression token *)
   end.
 
 (* parse the index text with one index operand: Some (code (value,size), argument part, its tokens) *)
 Definition idx_parse (regs : list str) (i : idxcfg) (ts : list token)
-  : (option (Z * Z) * option ipart * option (list token)) + bool :=     (* inr true = abort, inr false = no match *)
+  : (idxcode * option ipart * option (list token)) + bool :=     (* inr true = abort, inr false = no match *)
+  let oc (c : option (Z * Z)) := match c with Some x => ICConst x | None => ICNone end in
   match i with
-  | IdxReg r code => match ts with [TLabel x] => if str_eqb_ci x r then inl (code, None, None) else inr false | _ => inr false end
+  | IdxReg r code => match ts with [TLabel x] => if str_eqb_ci x r then inl (oc code, None, None) else inr false | _ => inr false end
   | IdxNum code a =>
       match parse_tokens ts with
-      | Ok e => if mentions_register regs e then inr false else inl (code, Some (arg_part (VExpr e) a), Some ts)
+      | Ok e => if mentions_register regs e then inr false else inl (oc code, Some (arg_part (VExpr e) a), Some ts)
       | _ => inr false                                  (* SyntaxError is caught by NumericExpressionOperand.parse_operand *)
+      end
+  | IdxNumBc size mn mx =>
+      match parse_tokens ts with
+      | Ok e => if mentions_register regs e then inr false else inl (ICExpr e mx mn size, None, None)
+      | _ => inr false                                  (* SyntaxError: the operand as a whole does not match (it is the last one tried) *)
       end
   end.
 
 Fixpoint first_idx (regs : list str) (l : list idxcfg) (ts : list token)
-  : option (option (Z * Z) * option ipart * option (list token)) :=
+  : option (idxcode * option ipart * option (list token)) :=
   match l with
   | [] => None
   | i :: r => match idx_parse regs i ts with inl x => Some x | inr _ => first_idx regs r ts end
@@ -217,8 +227,9 @@ Definition indexed_match (regs : list str) (o : opcfg) (r : str) (idx : list idx
           | Some (icode, iarg, itoks) =>
               let outer := match op_code o with Some v => (v, op_code_size o) | None => (0, 0) end in
               let code := match icode with
-                          | Some ic => {| ip_val := VComposite [outer; ic]; ip_size := snd outer + snd ic; ip_align := false; ip_endian := Big |}
-                          | None => code_part (fst outer) (snd outer)
+                          | ICConst ic => {| ip_val := VComposite [outer; ic]; ip_size := snd outer + snd ic; ip_align := false; ip_endian := Big |}
+                          | ICExpr e mx mn isz => {| ip_val := VCompositeE outer e mx mn isz; ip_size := snd outer + isz; ip_align := false; ip_endian := Big |}
+                          | ICNone => code_part (fst outer) (snd outer)
                           end in
               mk o (Some code) iarg itoks (Some r) txt
           | None => PNo
@@ -314,9 +325,9 @@ Definition try_operand (regs : list str) (o : opcfg) (txt : operand) : pres :=
       | None => PNo
       end
   | KEnumeration code_dict arg_dict a =>
-      (* re.match(r'\b(k1|k2|..)\b', text): the first token must be one of the argument dictionary's keys *)
+      (* re.match(r'^\b(k1|k2|..)\b$', text): the operand is exactly one of the argument dictionary's keys *)
       match txt with
-      | OT (TLabel k) :: _ =>
+      | [OT (TLabel k)] =>
           match kdict_get arg_dict k with
           | None => PNo
           | Some av =>
